@@ -382,11 +382,14 @@ impl<S: Subject> Inst<S> {
         let len = self.blocks.len;
         let (lo, hi) = (self.blocks.arena, self.blocks.arena + ARENA_BLOCKS * len);
         for i in 0..len / 8 {
-            let w = unsafe { std::ptr::read_volatile((self.live as *const u64).add(i)) } as usize;
-            // nothing legitimate points anywhere into the arena all blocks come from
-            if w < lo || w > hi {
+            let w0 = unsafe { std::ptr::read_volatile((self.live as *const u64).add(i)) } as usize;
+            // nothing legitimate points anywhere into the arena all blocks come from; tagged
+            // pointers are looked for as well: the address shifted left by up to 4 bits (tag in
+            // the low bits) or carrying a tag in its upper 16 bits
+            let candidates = [w0, w0 >> 1, w0 >> 2, w0 >> 3, w0 >> 4, w0 & 0x0000_ffff_ffff_ffff];
+            let Some(&w) = candidates.iter().find(|w| **w >= lo && **w <= hi) else {
                 continue;
-            }
+            };
             let inside = |b: *mut u8| w >= b as usize && w <= b as usize + len;
             let target = if inside(self.live) {
                 format!("{} bytes into the live block itself", w - self.live as usize)
@@ -401,8 +404,9 @@ impl<S: Subject> Inst<S> {
                 "absolute-address",
                 S::KIND,
                 format!(
-                    "the 8-byte word at block offset {} holds an absolute address: it points {target} (after {} relocation(s))",
+                    "the 8-byte word at block offset {} holds an absolute address{}: it points {target} (after {} relocation(s))",
                     i * 8,
+                    if w == w0 { "" } else { " (tagged / shifted)" },
                     self.relocs
                 ),
             ));
